@@ -32,8 +32,8 @@ def gen(pid, tier, rng, n=None, poison=None):
                              depth=rng.choice([0, 1, 1, 2]))
         pre = histgen.random_pre(rng, b, PRE[pid]) if rng.random() < 0.6 else []
         nt = rng.randint(*NTHREADS[pid])
-        # C10 / C11: some threads run their whole history inside a destructor during an unrelated unwind
-        unw = [t for t in range(nt) if pid in ("C10", "C11") and rng.random() < 0.12]
+        # C10 / C11 / C06: some threads run their whole history inside a destructor during an unrelated unwind
+        unw = [t for t in range(nt) if pid in ("C10", "C11", "C06") and rng.random() < 0.12]
         # a fifth of the histories are drawn with the profile of another history property (panic- / poison- / forget-heavy
         # mixes this property's own profile rarely produces); the monitor evaluated stays this property's
         prof = PROFILES[pid] if rng.random() < 0.8 else PROFILES[rng.choice(sorted(PROFILES))]
